@@ -86,6 +86,35 @@ def run_extra(ctx: Ctx):
                        "an index or a date is answered from a conversion made under another start or resolution", census=False)
 
 
+
+def slot_floor_rule(ctx: Ctx, rid: str):
+    """Project.dateToIdx, Python path: the slot of an instant is the floor of (instant - start) / slot length -- every division of the
+    elapsed time by the slot length is a floor division or sits directly inside floor().  Rounding to the nearest slot puts an instant
+    of the second half of a slot into the next one: a milestone dated by its dependency bound moves to the next slot boundary
+    (C17 R17.2 / C06 R06.13)."""
+    repo = ctx.repo
+    pd2i = repo.func("Project.dateToIdx")
+    # every division of the elapsed time by the slot length in the Python path is a floor division or sits directly inside floor()
+    fdp = ctx.dep.of(pd2i)
+    res_p = local_resolver(pd2i.node)
+
+    def is_gran(e):
+        if "scheduleGranularity" in norm(e):
+            return True
+        return isinstance(e, ast.Name) and any("scheduleGranularity" in norm(d) for d in res_p(e))
+    pasg = [x for x in own_nodes(pd2i) if isinstance(x, ast.BinOp) and isinstance(x.op, (ast.Div, ast.FloorDiv)) and is_gran(x.right)
+            and f"param:{pd2i.params[1]}" in full(fdp.deps_of(x.left))]
+
+    def floored(x):
+        if isinstance(x.op, ast.FloorDiv):
+            return True
+        par = getattr(x, "_parent", None)
+        return isinstance(par, ast.Call) and norm(par.func) in ("math.floor", "floor") and len(par.args) == 1 and par.args[0] is x
+    ok = bool(pasg) and all(floored(x) for x in pasg)
+    ctx.ob(rid, f"{pd2i.qual}: {norm(pasg[0]) if pasg else '-'}", pd2i, ok, "index(t) = floor((t - start) / granularity)" if ok else
+           "project time -> index is not a floor: an instant before the project start maps to slot 0",
+           key=f"{rid}|Project.dateToIdx|formula")
+
 def run(ctx: Ctx):
     repo = ctx.repo
     i2d = repo.func("Scoreboard.idxToDate")
@@ -340,27 +369,7 @@ def run(ctx: Ctx):
                "a run found in the look-back / look-ahead padding is clipped to the window and reported although nothing of it lies "
                "inside: a zero-length interval is returned",
                key="R17.5|collectIntervals|non-empty")
-    pd2i = repo.func("Project.dateToIdx")
-    # every division of the elapsed time by the slot length in the Python path is a floor division or sits directly inside floor()
-    fdp = ctx.dep.of(pd2i)
-    res_p = local_resolver(pd2i.node)
-
-    def is_gran(e):
-        if "scheduleGranularity" in norm(e):
-            return True
-        return isinstance(e, ast.Name) and any("scheduleGranularity" in norm(d) for d in res_p(e))
-    pasg = [x for x in own_nodes(pd2i) if isinstance(x, ast.BinOp) and isinstance(x.op, (ast.Div, ast.FloorDiv)) and is_gran(x.right)
-            and f"param:{pd2i.params[1]}" in full(fdp.deps_of(x.left))]
-
-    def floored(x):
-        if isinstance(x.op, ast.FloorDiv):
-            return True
-        par = getattr(x, "_parent", None)
-        return isinstance(par, ast.Call) and norm(par.func) in ("math.floor", "floor") and len(par.args) == 1 and par.args[0] is x
-    ok = bool(pasg) and all(floored(x) for x in pasg)
-    ctx.ob("R17.2", f"{pd2i.qual}: {norm(pasg[0]) if pasg else '-'}", pd2i, ok, "index(t) = floor((t - start) / granularity)" if ok else
-           "project time -> index is not a floor: an instant before the project start maps to slot 0",
-           key="R17.2|Project.dateToIdx|formula")
+    slot_floor_rule(ctx, "R17.2")
     ms = [x for x in own_nodes(ci) if isinstance(x, ast.Assign) and norm(x.targets[0]) == "minDurationSlots" and "int(" in norm(x.value)]
     ok = bool(ms) and norm(ms[0].value) == "int(minDuration / self.resolution)"
     ctx.ob("R17.5", f"{ci.qual}: {norm(ms[0]) if ms else '-'}", ci, ok, "minimum duration converted to slots" if ok else
